@@ -173,7 +173,14 @@ struct MapStream : Family {
 		Out o = callLib(plan, [&] {
 			if (wb == "dyn") { Stream::DynamicMemoryWriter w; map.Write(w); auto rd = w.GetReader(); out.resize(static_cast<size_t>(rd.Length())); rd.Read(out.data(), out.size()); }
 			else if (wb == "sim") { SimWriter w; map.Write(w); out = w.data; }
-			else if (wb == "path") map.Write(std::string("_w/") + tag + ".map"); // the filename overload
+			else if (wb == "path") {
+				if (mix64(plan.seed, hashstr(tag) ^ 0xd1f) % 2 == 0) {
+					// failure, then success: the same map is first written by name onto a directory (that attempt may fail as it likes)
+					disk::mkdirs("_w/adir/_s");
+					try { map.Write(std::string("_w/adir")); } catch (const std::exception&) {}
+				}
+				map.Write(std::string("_w/") + tag + ".map"); // the filename overload
+			}
 			else {
 				// a second file writer may be alive on the same thread while the map is written, its own writes and its close falling
 				// before, between or after those of the map's writer: two writers, two files, nothing shared
